@@ -127,6 +127,18 @@ func cpIncrSpec(b []byte) []byte { // big-endian +1 on a fixed width, nil on ove
 	return nil
 }
 
+// ptoEndSpec: the least upper bound of the keys that start with p: p without its trailing ff bytes, plus one
+func ptoEndSpec(p []byte) []byte {
+	q := p
+	for len(q) > 0 && q[len(q)-1] == 0xff {
+		q = q[:len(q)-1]
+	}
+	if len(q) == 0 {
+		return nil
+	}
+	return cpIncrSpec(q)
+}
+
 func cpDecrSpec(b []byte) []byte {
 	r := append([]byte{}, b...)
 	for i := len(r) - 1; i >= 0; i-- {
@@ -183,8 +195,10 @@ func (P) Monitor(c *hx.CaseRun) []hx.Failure {
 		}
 		// ---- leaf functions against their specification
 		if name == "crashprobe" {
-			if ans == "crashed" {
-				fail("batch_reusable", "badger-batch-reuse-crash", "libs/db/badger_db.go:badgerBatch.Reset", "a badger batch that was Reset (or written) and used again kills the process: `"+op+"` in a child process")
+			mode, _ := hx.Arg(toks, "mode")
+			want := map[string]string{"reset-write": "survived kv=02:02", "write-reset-write": "survived kv=01:01,02:02", "write-write": "survived kv=02:02"}[mode]
+			if ans != want {
+				fail("batch_reusable", "badger-batch-reuse-crash", "libs/db/badger_db.go:badgerBatch.Reset", fmt.Sprintf("a badger batch that was Reset or written and then used again: `%s` in a child process -> %s, expected %s", op, ans, want))
 			}
 			continue
 		}
@@ -202,21 +216,21 @@ func (P) Monitor(c *hx.CaseRun) []hx.Failure {
 				fail("leaf_spec", "IsKeyInDomain", "libs/db/util.go:IsKeyInDomain", fmt.Sprintf("%s -> %s, specification says %v", op, ans, want))
 			}
 			continue
-		case "cpincr":
+		case "ipbounds":
 			b := arg("b")
 			want := "s=nil e=nil"
 			if len(b) > 0 {
-				want = "s=" + showB(b) + " e=" + showB(cpIncrSpec(b))
+				want = "s=" + showB(b) + " e=" + showB(ptoEndSpec(b))
 			}
 			if ans != want {
-				fail("leaf_spec", "cpIncr", "libs/db/util.go:cpIncr", fmt.Sprintf("%s -> %s, specification says %s", op, ans, want))
+				fail("leaf_spec", "IteratePrefix-bounds", "libs/db/prefix_db.go:IteratePrefix", fmt.Sprintf("%s -> %s, specification says %s", op, ans, want))
 			}
 			continue
 		case "cpdecr":
 			b := arg("b")
 			want := "panic"
 			if len(b) > 0 {
-				want = "s=" + showB(cpIncrSpec(b)) + " e=" + showB(cpDecrSpec(b))
+				want = "s=" + showB(ptoEndSpec(b)) + " e=" + showB(cpDecrSpec(b))
 			}
 			if ans != want && !(want == "panic" && strings.HasPrefix(ans, "panic")) {
 				fail("leaf_spec", "cpDecr", "libs/db/util.go:cpDecr", fmt.Sprintf("%s -> %s, specification says %s", op, ans, want))
@@ -224,15 +238,7 @@ func (P) Monitor(c *hx.CaseRun) []hx.Failure {
 			continue
 		case "ptoend":
 			// the least upper bound of the keys that start with p: p with trailing ff bytes removed, then +1
-			p := arg("p")
-			q := p
-			for len(q) > 0 && q[len(q)-1] == 0xff {
-				q = q[:len(q)-1]
-			}
-			want := "nil"
-			if len(q) > 0 {
-				want = showB(cpIncrSpec(q))
-			}
+			want := showB(ptoEndSpec(arg("p")))
 			if ans != want {
 				fail("leaf_spec", "PrefixToEnd", "libs/db/types.go:PrefixToEnd", fmt.Sprintf("%s -> %s, specification says %s", op, ans, want))
 			}
@@ -253,11 +259,6 @@ func (P) Monitor(c *hx.CaseRun) []hx.Failure {
 			}
 		}
 		got := splitAnswers(ans, live)
-		if i == len(c.Ops)-1 || true {
-			if note, ok := notes[i]; ok && sharded {
-				fail("iter_order_bounds", "sharded-iter-duplicate", "libs/db/go_level_db.go:goLevelDBIterator.Next", fmt.Sprintf("`%s` on a store with counts=4: %s", op, note))
-			}
-		}
 		under := isUnder(name)
 		if under {
 			name = name[1:]
@@ -395,6 +396,9 @@ func (P) Monitor(c *hx.CaseRun) []hx.Failure {
 				pending = true
 			}
 		}
+		if c.Tags["rewrite"] {
+			continue // a batch written again without Reset: what it still holds is adapter-specific (see Rule); structural checks only
+		}
 		for _, n := range live {
 			if r.hasPref && len(r.prefix) == 0 && got[n] == "panic" {
 				continue // malformed stream: a PrefixDB with the empty prefix (cpIncr's contract is len > 0)
@@ -430,52 +434,11 @@ func (P) Monitor(c *hx.CaseRun) []hx.Failure {
 	return fs
 }
 
-var knownSites = map[string]string{
-	"cpincr-prefix-overrun":      "libs/db/util.go:cpIncr",
-	"bdg-riter-empty-start":      "libs/db/badger_db.go:newBadgerIterator",
-	"ldb-load-exist-deleted-key": "libs/db/go_level_db.go:GoLevelDB.Load",
-}
+// knownClass: no recorded finding is open any more (all five were repaired in the repository); every failure
+// keeps its generic class <backend>:<op kind>.
+func knownClass(n, name string, under bool, toks []string, r *refState, got, want string) string { return "" }
 
-func ffTail(p []byte) bool { // ends in ff but is not all ff: cpIncr(p) carries and overshoots PrefixToEnd(p)
-	if len(p) == 0 || p[len(p)-1] != 0xff {
-		return false
-	}
-	for _, b := range p {
-		if b != 0xff {
-			return true
-		}
-	}
-	return false
-}
-
-// knownClass: the op/backend shapes of the recorded findings (predicates over the INPUT, evaluated only when a
-// monitor already failed on that op and backend)
-func knownClass(n, name string, under bool, toks []string, r *refState, got, want string) string {
-	arg := func(k string) (string, []byte) { v, _ := hx.Arg(toks, k); return v, bnd(v) }
-	switch name {
-	case "iterprefix":
-		if _, p := arg("p"); ffTail(p) {
-			return "cpincr-prefix-overrun"
-		}
-	case "riter":
-		st, _ := arg("s")
-		if !under && r.hasPref && st == "nil" && ffTail(r.prefix) {
-			return "cpincr-prefix-overrun"
-		}
-		if (under || !r.hasPref) && st == "-" && n == "bdg" {
-			return "bdg-riter-empty-start"
-		}
-	case "load":
-		if n == "ldb" && got == "v=-" && want == "none" {
-			return "ldb-load-exist-deleted-key"
-		}
-	case "exist":
-		if n == "ldb" && got == "true" && want == "false" {
-			return "ldb-load-exist-deleted-key"
-		}
-	}
-	return ""
-}
+var knownSites = map[string]string{}
 
 func clipS(s string, n int) string {
 	if len(s) <= n {
